@@ -36,7 +36,9 @@ def apply_unified_diff(patch_text, read):
                 or line.startswith("deleted file") or line.startswith("similarity") or line.startswith("rename "):
             continue
         elif line.startswith("@@") and cur is not None:
-            files[cur].append([])
+            import re
+            mh = re.match(r"@@ -(\d+)", line)
+            files[cur].append(["@" + (mh.group(1) if mh else "0")])
         elif cur is not None and files[cur] and (line[:1] in " +-" or line == ""):
             files[cur][-1].append(line if line else " ")
         elif line.startswith("\\"):
@@ -50,11 +52,28 @@ def apply_unified_diff(patch_text, read):
         except Exception:
             return None
         for h in hs:
+            at, h = int(h[0][1:]), h[1:]
             old = "".join(l[1:] + "\n" for l in h if l[0] in " -")
             new = "".join(l[1:] + "\n" for l in h if l[0] in " +")
-            if text.count(old) != 1:
+            if text.count(old) == 1:
+                text = text.replace(old, new)
+                continue
+            if text.count(old) == 0 or not old:
                 return None
-            text = text.replace(old, new)
+            # several identical fragments (sibling classes): take the occurrence nearest to the stated line
+            pos, best = -1, None
+            while True:
+                pos = text.find(old, pos + 1)
+                if pos < 0:
+                    break
+                if not (pos == 0 or text[pos - 1] == "\n"):
+                    continue
+                line_no = text.count("\n", 0, pos) + 1
+                if best is None or abs(line_no - at) < abs(best[1] - at):
+                    best = (pos, line_no)
+            if best is None:
+                return None
+            text = text[:best[0]] + new + text[best[0] + len(old):]
         out[rel] = text
     return out
 
